@@ -19,7 +19,7 @@ func c03(c *eng.Ctx, r *eng.Report) {
 		"R3.3 history is append-only — no production caller of Dereference/Cap and no Delete on a state store anywhere in storage/trie or storage/account; " +
 		"R3.4 the commit leaf callback references every hash-valued field of Account (storage root, code hash), each reference conditional only on its own field; dirty objects commit their storage trie (error checked) before their account record is written; " +
 		"R3.5 state commit then node-database commit, both error-checked, before success is reported and before the head moves (shared with C05 R5.4); " +
-		"R3.6 errors of batch writes and commits are consumed at every call site. " +
+		"R3.6 errors of batch writes and commits are consumed at every call site; R3.7 the flag that makes Commit write an account's code blob is raised unconditionally (constant true) by every function that installs code bytes, lowered only in Commit after InsertBlob of those bytes, and never computed. " +
 		"Not decided: LevelDB batch atomicity and durability (trusted), that every value readable before is readable after, arbitrary physical crash points."
 	r.Assume = []string{"a LevelDB batch write is atomic and durable once it returns nil"}
 	c03PostOrder(c, r)
@@ -28,6 +28,7 @@ func c03(c *eng.Ctx, r *eng.Report) {
 	c03LeafRefs(c, r)
 	c05StateBeforeHeadAs(c, r, "R3.5")
 	c03Errors(c, r)
+	c03DirtyBlob(c, r)
 }
 
 func batchCalls(fn *ssa.Function, method string) []*ssa.Call {
@@ -311,4 +312,85 @@ func c03Errors(c *eng.Ctx, r *eng.Report) {
 			}
 		}
 	}
+}
+
+// c03DirtyBlob: the flag that makes Commit write an account's code blob is
+// raised unconditionally by whoever installs code and lowered only by Commit,
+// after the blob was handed to the node database. A computed or conditionally
+// lowered flag lets a commit report success with a leaf that points at bytes
+// that were never written.
+func c03DirtyBlob(c *eng.Ctx, r *eng.Report) {
+	const rule = "R3.7"
+	r.Min(rule, 3)
+	n := 0
+	var setters []*ssa.Function
+	for _, fn := range c.PkgFuncs("storage/account") {
+		if c.IsTestFunc(fn) {
+			continue
+		}
+		for i, st := range eng.FieldStores(fn, "storage/account.accountObject", "dirtyNFTSet") {
+			n++
+			s := st.(*ssa.Store)
+			key := fmt.Sprintf("dirty-flag:%s#%d", eng.FuncName(fn), i)
+			k, isK := s.Val.(*ssa.Const)
+			switch {
+			case isK && k.Value != nil && k.Value.ExactString() == "true":
+				setters = append(setters, fn)
+				r.Check(len(eng.CondsAt(s)) == 0, rule, key, c.Pos(s.Pos()), "raised unconditionally", eng.FuncName(fn)+" raises accountObject.dirtyNFTSet only under a condition: code installed on the other branch is never written by Commit")
+			case isK && k.Value != nil && k.Value.ExactString() == "false":
+				ok := strings.Contains(eng.FuncName(fn), "AccountDB).Commit")
+				if ok {
+					ok = false
+					for _, call := range callsNamed(fn, ".InsertBlob") {
+						if eng.Dominates(call, s) && strings.HasSuffix(eng.Desc(call.Call.Args[len(call.Call.Args)-1]), ".nftSet") {
+							ok = true
+						}
+					}
+				}
+				r.Check(ok, rule, key, c.Pos(s.Pos()), "lowered by Commit after InsertBlob(hash, nftSet)", eng.FuncName(fn)+" lowers accountObject.dirtyNFTSet without having inserted the code blob first: the next Commit skips the blob and the account leaf references bytes that are not in the node database")
+			default:
+				if _, isCopy := s.Val.(*ssa.UnOp); isCopy && strings.HasSuffix(eng.Desc(s.Val), ".dirtyNFTSet") {
+					r.Pass(rule, key, c.Pos(s.Pos()), "copied from another object's flag")
+					continue
+				}
+				r.Fail(rule, key, c.Pos(s.Pos()), eng.FuncName(fn)+" sets accountObject.dirtyNFTSet to the computed value "+eng.Desc(s.Val)+": the flag must be raised whenever code is installed (the blob may not have been persisted yet even if the hash is unchanged); otherwise Commit reports success with a leaf whose code hash was never written")
+			}
+		}
+	}
+	// whoever stores the code hash / code bytes also raises the flag
+	for _, fn := range c.PkgFuncs("storage/account") {
+		if c.IsTestFunc(fn) || strings.Contains(eng.FuncName(fn), ").undo") {
+			continue
+		}
+		for _, st := range eng.FieldStores(fn, "storage/account.accountObject", "nftSet") {
+			if k, isK := st.(*ssa.Store).Val.(*ssa.Const); isK && k.Value == nil {
+				continue // cleared
+			}
+			has := false
+			for _, s2 := range setters {
+				if s2 == fn {
+					has = true
+				}
+			}
+			n++
+			// loading code from the database (not dirty) is the one legitimate exception: value comes from ContractCode
+			if strings.Contains(eng.Desc(st.(*ssa.Store).Val), "ContractCode(") {
+				r.Pass(rule, "code-loader:"+eng.FuncName(fn), c.Pos(st.Pos()), "code read back from the database (already persisted)")
+				continue
+			}
+			if fn.Name() == "deepCopy" {
+				// the copy is a throw-away used to compute a storage trie; it must never become a committed object
+				only := true
+				for _, site := range c.Callers(fn) {
+					if !c.IsTestFunc(site.Fn) && site.Fn.Name() != "StorageTrie" {
+						only = false
+					}
+				}
+				r.Check(only, rule, "code-setter:"+eng.FuncName(fn), c.Pos(st.Pos()), "throw-away copy, reachable only from AccountDB.StorageTrie (never committed)", "accountObject.deepCopy copies the code bytes without the dirty flag and is now called from somewhere other than AccountDB.StorageTrie: a copied object that gets committed would not write its code blob")
+				continue
+			}
+			r.Check(has, rule, "code-setter:"+eng.FuncName(fn), c.Pos(st.Pos()), "installs code and raises the dirty flag", eng.FuncName(fn)+" installs code bytes on an account without raising dirtyNFTSet: Commit will not write the blob")
+		}
+	}
+	r.Check(n >= 3, rule, "dirty-flag:sites", "", fmt.Sprintf("%d sites", n), fmt.Sprintf("only %d stores to dirtyNFTSet/nftSet found", n))
 }
